@@ -12,3 +12,5 @@ import McpModel.Negotiate.Props
 -- (Paginate/Negotiate drivers are roots of their own executables; two `main`s cannot be imported together)
 import McpModel.TypedTool.Props
 import McpModel.Preflight.Props
+import McpModel.EventStore.Driver
+import McpModel.Notify.Props
